@@ -19,7 +19,7 @@ RULE = ("Histories over 19 operations {rewrite same size, rewrite other size, to
         "both), '*'} after an initial plain GET: exhaustive to length 3 (thorough 4), random length 7 beyond; targets Files:/f.txt, Pages:/p (-> p.html), "
         "Pages:/sub/ (-> index.html); both interfaces; process time zone rotated over UTC, America/Los_Angeles, Asia/Kolkata, Pacific/Kiritimati, Etc/GMT+12. Non-trivial = history with >=1 modification between a response and the reuse of its validators; "
         "exhaustive histories are distinct by construction.")
-RULE += ' Also: (ASGI) the file replaced while another request for it is in flight, then a request with the old validators; a sweep over hundreds of (size, modification second) states of one file (no two states share an entity tag that revalidates); files whose names carry digests / dates / versions; 2-5 conditional requests with assorted validators in flight together on one app object; the validators in either order with other request headers before, between and after them; replacement by a file of another size whose mtime was carried over (only ctime moves), If-None-Match lists with empty members and with a comma inside a tag, conditional requests sent as GET or HEAD, apps with every cacheability / max_age setting. The file replaced between two ASGI requests answered by one task with nothing awaited in between, and while an earlier WSGI download is still held unfinished. If-None-Match: * together with a held date; a TAB after the comma of a tag list; file times of exactly 0.'
+RULE += ' Also: (ASGI) the file replaced while another request for it is in flight, then a request with the old validators; a sweep over hundreds of (size, modification second) states of one file (no two states share an entity tag that revalidates); files whose names carry digests / dates / versions; 2-5 conditional requests with assorted validators in flight together on one app object; the validators in either order with other request headers before, between and after them; replacement by a file of another size whose mtime was carried over (only ctime moves), If-None-Match lists with empty members and with a comma inside a tag, conditional requests sent as GET or HEAD, apps with every cacheability / max_age setting. The file replaced between two ASGI requests answered by one task with nothing awaited in between, and while an earlier WSGI download is still held unfinished. If-None-Match: * together with a held date; a TAB after the comma of a tag list; file times of exactly 0. Files of 262143 / 262144 / 262145 / 600000 bytes in the sweep (the full answer carries the whole file).'
 ASSUMPTIONS = [
     "a request that carries only If-Modified-Since is not judged when the change time of the file is not later than the date the client holds although it lies in another second (file clock stepped backwards, or a carried-over mtime ahead of ctime): a date comparison cannot see such a change; ETag-carrying requests are judged",
     "file timestamps come from a virtual clock (os.stat is wrapped for sandbox paths only); content is really written to disk",
